@@ -31,6 +31,8 @@ def symptom(ev):
             return "lost-ack"
         if not set(b["stored"]) <= set(acks.get(b["bug"], [])) | set(maybes.get(b["bug"], [])):
             return "unacknowledged-stored"
+    if ev.get("stale"):
+        return "stale-excerpt"
     if not ev["agrees"]:
         return "cache-disagrees"
     if ev["clockfile"] != ev["clockmem"]:
